@@ -715,7 +715,7 @@ def border_scripts(rng, tier):
     return out
 
 
-FIXED_FEATURES = {"F21", "F22", "F39", "F120", "F121", "F122", "F124", "F125", "F139"}
+FIXED_FEATURES = {"F21", "F22", "F39", "F120", "F121", "F122", "F124", "F125", "F139", "F142"}
 
 
 def features(h, script_globals=(), handler_names=()):
